@@ -1081,7 +1081,7 @@ class DriverLubaRs232(DriverSerialBase):
             self._protocol.reset_dali_response()
             await self._protocol.send_dali_command(msg)
             if msg.is_query:
-                response = command.Response(None)
+                response = msg.response(None)
                 while True:
                     try:
                         raw_rsp = await asyncio.wait_for(
@@ -1672,7 +1672,7 @@ class DriverSCIRS232(DriverSerialBase):
             self._protocol.reset_dali_response()
             await self._protocol.send_dali_command(msg)
             if msg.is_query:
-                response = command.Response(None)
+                response = msg.response(None)
                 while True:
                     try:
                         raw_rsp = await asyncio.wait_for(
